@@ -4,7 +4,7 @@
    string quoting of the printer model read back by the lexer model (the part of the law
    that depends on the characters of string values and descriptions). *)
 From Coq Require Import String List NArith.
-From GQL Require Import Base.Bytes Syntax.Lexer Syntax.Ast Syntax.Parser Syntax.Printer Proofs.SyntaxPrinter Proofs.SyntaxRender.
+From GQL Require Import Base.Bytes Syntax.Lexer Syntax.Ast Syntax.Parser Syntax.Printer Proofs.SyntaxPrinter Proofs.SyntaxRender Syntax.Grammar Proofs.SyntaxTypeRT.
 Import ListNotations.
 Open Scope N_scope.
 
@@ -49,6 +49,18 @@ Theorem C08_lex_layout_general : forall L w pos fuel, sep_ok w -> layout_ok L ->
   lex_all fuel (w ++ flat L) pos = Ok (ptoks (pos + nlen w) L ++ [eof_tok (pos + nlen w + nlen (flat L))], false).
 Proof. exact lex_layout. Qed.
 Print Assumptions C08_lex_layout_general.
+
+(* The whole chain print -> lex -> derive -> parse, proved for one recursive nonterminal: every
+   well-formed type (names are names, no NonNull directly inside NonNull -- what the parser
+   produces) is printed to a text whose tokens derive, and are parsed back to, a type equal to it
+   up to locations. *)
+Theorem C08_type_roundtrip : forall t, wf_ty t = true ->
+  exists ts t', lex (print_type t) = Ok (ts ++ [eof_tok (nlen (print_type t))], false) /\
+    DType ts t' /\ ty_eqv t t' /\
+    forall fuel pe, (length ts < fuel)%nat ->
+      parse_type fuel (pe, ts ++ [eof_tok (nlen (print_type t))]) = Ok (t', (endof pe ts, [eof_tok (nlen (print_type t))])).
+Proof. exact type_roundtrip. Qed.
+Print Assumptions C08_type_roundtrip.
 
 (* non-vacuity of C08_lex_layout: the layout of a parsed executable document is well-formed *)
 Example C08_layout_nonvacuous :
